@@ -196,9 +196,12 @@ def run(ctx):
             # the size registered for this field is found: `contains_key(name)` true, or `get(name)` is Some
             if d[0] == 'call' and d[1].endswith('contains_key') and 'HashMap' in d[1] and branch_truth(ev):
                 ck.append(ev)
-            elif d[0] == 'discr' and unwrap_cast(d[1])[0] == 'call' and 'HashMap' in unwrap_cast(d[1])[1] \
-                    and unwrap_cast(d[1])[1].endswith('::get') and ev[3] == 1:
-                ck.append(ev)
+            elif d[0] == 'discr' and ev[3] == 1:
+                x_ = unwrap_cast(d[1])
+                while x_[0] == 'call' and re.search(r'Option::<&(mut )?T>::(cloned|copied)$', x_[1]) and x_[3]:
+                    x_ = unwrap_cast(x_[3][0])
+                if x_[0] == 'call' and 'HashMap' in x_[1] and x_[1].endswith('::get'):
+                    ck.append(ev)
         if not ck:
             continue
         n_sized += 1
